@@ -385,6 +385,39 @@ class time_limit:
         return False
 
 
+class Java:
+    """the repository's Java auxdatacodec classes, compiled from /repo and driven by harness/java/CodecDriver"""
+
+    def __init__(self):
+        import shutil
+        import subprocess
+        from .build import REPO
+        self.ok = False
+        self.why = ""
+        if not shutil.which("javac") or not shutil.which("java"):
+            self.why = "javac/java not installed"
+            return
+        self.out = os.path.join(workdir("gtirbverif-java-"), "classes")
+        here = os.path.join(os.path.dirname(os.path.abspath(__file__)), "java")
+        p = subprocess.run([os.path.join(here, "build.sh"), self.out], capture_output=True, text=True,
+                           env=dict(os.environ, VERIF_REPO=REPO))
+        if p.returncode != 0:
+            self.why = "javac failed: " + (p.stderr or p.stdout)[-400:]
+            return
+        self.ok = True
+
+    def run(self, requests):
+        """requests: list of (type name, bytes) -> list of parsed JSON replies"""
+        import subprocess
+        inp = "".join("%s\t%s\n" % (n, b.hex()) for n, b in requests)
+        p = subprocess.run(["java", "-Xmx1g", "-Xss64m", "-cp", self.out, "CodecDriver"], input=inp, capture_output=True,
+                           text=True, timeout=600)
+        lines = p.stdout.splitlines()
+        if len(lines) != len(requests):
+            raise MachineryFailure("CodecDriver answered %d of %d requests: %s" % (len(lines), len(requests), p.stderr[-300:]))
+        return [json.loads(x) for x in lines]
+
+
 def viol(prop, kind, t, v, expected, observed):
     return {"kind": kind, "props": [prop], "op": {"name": kind, "type_name": show(t), "value": v},
             "expected": expected, "observed": observed, "history": [], "signature": "%s:%s" % (kind, t["name"])}
@@ -423,7 +456,10 @@ def run(ctx):
     # ---- the implementation legs
     p2 = os.path.join(wd, "judge.ndjson")
     meta = []
-    with open(p2, "w") as fh:
+    java = Java() if ctx.prop == "C08" else None
+    java_stats = {"requests": 0, "supported": 0, "errors": 0, "python_decoded_java_bytes": 0}
+    recs_out = []
+    if True:
         for i, (t, v) in enumerate(inputs):
             name = show(t)
             conv = Conv(gtirb, ir)
@@ -463,6 +499,44 @@ def run(ctx):
             if wrong_nodes:
                 notes["node_resolution"] = wrong_nodes[:3]
             meta.append(notes)
+            recs_out.append((rec, pb))
+    if java is not None and java.ok:
+        reqs, owner = [], []
+        for i, (t, v) in enumerate(inputs):
+            name = show(t)
+            if recs_out[i][1] is not None:
+                reqs.append((name, recs_out[i][1]))
+                owner.append((i, "java-decodes-python"))
+            reqs.append((name, spec_bytes[i]))
+            owner.append((i, "java-decodes-spec"))
+        replies = java.run(reqs)
+        java_stats["requests"] = len(reqs)
+        for (i, who), rep in zip(owner, replies):
+            t, v = inputs[i]
+            rec = recs_out[i][0]
+            if rep.get("unsupported"):
+                continue
+            java_stats["supported"] += 1
+            if not rep.get("ok") or not rep.get("full"):
+                java_stats["errors"] += 1
+                meta[i][who] = "java: %s" % (rep.get("error") or "stream not fully consumed")
+                continue
+            rec["dec"].append({"who": who, "v": rep["value"]})
+            if who == "java-decodes-python":
+                jb = bytes(rep["reenc"])
+                rec["enc"].append({"who": "java", "bytes": list(jb)})
+                try:
+                    conv = Conv(gtirb, ir)
+                    with time_limit(3):
+                        dv = ser.decode(io.BytesIO(jb), show(t), ir.get_by_uuid)
+                    rec["dec"].append({"who": "python-decodes-java", "v": conv.to_j(t, dv)})
+                    java_stats["python_decoded_java_bytes"] += 1
+                except (Exception, _Timeout) as e:
+                    meta[i]["python-decodes-java"] = "%s: %s" % (type(e).__name__, e)
+    elif java is not None:
+        java_stats["skipped"] = java.why
+    with open(p2, "w") as fh:
+        for rec, _ in recs_out:
             fh.write(json.dumps(rec) + "\n")
     res2, st2 = tlc_pass(p2, "judge", len(inputs))
     ctx.states += st1 + st2
@@ -477,6 +551,7 @@ def run(ctx):
             vv["observed"] = [e["bytes"] for e in json.loads(open(p2).read().splitlines()[i])["enc"]]
         else:
             vv = viol("C07" if x["who"] == "python-decodes-python" else "C08", "wrong-value", t, v, v, {"who": x["who"]})
+            vv["signature"] += "/" + x["who"]
         nviol += 1
         if mine(vv):
             ctx.violations.append(vv)
@@ -486,7 +561,7 @@ def run(ctx):
         t, v = inputs[i]
         for k, msg in notes.items():
             prop = {"encode_exc": "C07", "python-decodes-python": "C07", "python-decodes-spec": "C08",
-                    "consumption": "C07", "node_resolution": "C07"}[k]
+                    "consumption": "C07", "node_resolution": "C07"}.get(k, "C08")
             vv = viol(prop, k, t, v, "no exception / exact consumption / Node iff attached", msg)
             if mine(vv):
                 ctx.violations.append(vv)
@@ -499,7 +574,7 @@ def run(ctx):
     for t, _ in inputs:
         kinds[t["name"]] = kinds.get(t["name"], 0) + 1
     ctx.stages.append({"stage": "auxwire", "inputs": len(inputs), "systematic": len(inputs) - nrand, "random": nrand,
-                       "top_level_type_counts": kinds, "tlc_rejections": nviol,
+                       "top_level_type_counts": kinds, "tlc_rejections": nviol, "java_leg": java_stats,
                        "legs": ["python encode vs spec Enc (bytes)", "python decode of python bytes",
                                 "python decode of spec bytes (independent writer)", "stream consumption",
                                 "Node vs plain UUID resolution"]})
